@@ -85,6 +85,16 @@ impl ParseAttribute for FromMetaOptions {
 
 impl ParseData for FromMetaOptions {
     fn parse_variant(&mut self, variant: &syn::Variant) -> Result<()> {
+        // The generated `from_list` can only build unit, newtype and struct variants.
+        if let syn::Fields::Unnamed(ref fields) = variant.fields {
+            if fields.unnamed.len() != 1 {
+                return Err(Error::custom(
+                    "`FromMeta` can only be derived for tuple variants with exactly one field",
+                )
+                .with_span(variant));
+            }
+        }
+
         self.base.parse_variant(variant)
     }
 
@@ -97,6 +107,15 @@ impl ParseData for FromMetaOptions {
 
         match self.base.data {
             Data::Struct(ref data) => {
+                if data.is_tuple() && !data.is_newtype() {
+                    errors.push(
+                        Error::custom(
+                            "`FromMeta` can only be derived for tuple structs with exactly one field",
+                        )
+                        .with_span(&self.base.ident),
+                    );
+                }
+
                 if let Some(from_word) = &self.from_word {
                     if data.is_unit() {
                         errors.push(Error::custom("`from_word` cannot be used on unit structs because it conflicts with the generated impl").with_span(from_word));
